@@ -158,11 +158,20 @@ def _run_tree(ctx):
 
 
 def run(ctx):
+    if ctx.shard == 0:  # the repository's own pinned examples as one more workload (outcomes ignored)
+        from ..repotests import run_repo_tests
+
+        run_repo_tests(ctx, ("marker",), before_each=lambda: setattr(ctx, 'env_budget', ctx.env_cap_top))
     run_trees(ctx, _run_tree(ctx), n_random=700 if ctx.tier == "quick" else 15000, max_atoms=7 if ctx.tier == "quick" else 9,
               unary_p=0.6, small_frac=0.4 if ctx.tier == "quick" else 1.0)
 
 
 def replay(ctx, case):
+    if isinstance(case, dict) and case.get("kind") == "repo-test":
+        from ..repotests import run_repo_tests
+
+        run_repo_tests(ctx, nodeid=case["nodeid"])
+        return
     MM.clear_caches()
     ctx.current_case = case
     MM.eval_marker_tree(ctx, case["tree"], None, prop=PROP, watchdog=60.0)
